@@ -222,6 +222,11 @@ def check(ctx):
     # ------------------------------------------------------------------ R4
     ctx.rule("R4", "no mutable state shared between instances (module globals, class attributes, mutable defaults, exec into globals)", floor=3)
     _shared_state(ctx, prog, R)
+    # ------------------------------------------------------------------ R6
+    ctx.rule("R6", "nothing a run writes can reach a later run through the caller's own arrays or options dict (no in-place write through an alias of them)", floor=3)
+    from .c20 import caller_data_private
+
+    caller_data_private(ctx, prog, R)
     ctx.assume("gpyreg and scipy draw from numpy's global legacy stream when no rng is passed (read in the installed sources)")
     ctx.assume("logging.basicConfig and np.seterr are value-neutral process state")
 
